@@ -381,11 +381,16 @@ func (s *Session) generateShmMetadata(eventType eventType) (data []byte) {
 func (s *Session) exitErr(err error) {
 	s.logger.errorf("%s exitErr:%s", s.sessionName(), err.Error())
 	atomic.AddUint64(&s.stats.eventConnErrorCount, 1)
-	s.shutdownLock.Lock()
-	if s.shutdownErr == nil {
-		s.shutdownErr = err
+	// The teardown posted by Close holds shutdownLock while it waits for the streams' callback goroutines. A
+	// callback goroutine that fails to write (the peer is gone) ends up here: blocking on the lock would
+	// deadlock it with the event loop. When the lock is taken the session is already shutting down with a
+	// reason recorded, so there is nothing to add.
+	if s.shutdownLock.TryLock() {
+		if s.shutdownErr == nil {
+			s.shutdownErr = err
+		}
+		s.shutdownLock.Unlock()
 	}
-	s.shutdownLock.Unlock()
 	s.Close()
 }
 
